@@ -633,7 +633,7 @@ fn case_odd(r: &mut Rng) -> MsgDesc {
 
 pub fn generate(r: &mut Rng, tier: &str, emit: &mut dyn FnMut(String)) {
     let thorough = tier == "thorough";
-    let n = if thorough { 38_400 } else { 3_840 };
+    let n = if thorough { 28_800 } else { 2_880 };
     for i in 0..n {
         let d = match i % 24 {
             0..=9 => case_small(r),
